@@ -6,6 +6,7 @@ CONSTANTS
   Types = {"i8", "u16", "f32", "f64", "uc8"}
   RasDims <- RDimsNone
   ScaleSets <- ScalesNo
+  Grows = {}
   MaxObjs = 6
   MaxOps = 5
   Mix = FALSE
